@@ -7,8 +7,10 @@ from typing import Dict, List, Tuple
 
 from harness.lib.core import VERIF, Ctx, lean_lock, run_driver, shrink_ops
 from harness.extract import health as x_health
+from harness.extract import health_scan_tr as x_scan
 from harness.rigs import health as rig
 from harness.rigs import health_game as grig
+from harness.rigs import health_gamestep as gsrig
 
 MANIFEST = {
     "text": "Lean 4 proof over an executable model of one node's health bookkeeping (software actual/visible/fix countdown, "
@@ -63,8 +65,22 @@ MANIFEST = {
             "(created over a deleted one) the by-name restore operations of the model are not the code's first-match semantics: the "
             "rig ends the comparison of that trace there (counted) and relies on the identity-based implementation oracle. The fix "
             "and installation timing theorems are lifted over install/uninstall/tickDb steps by name (round 7: C14_dyn_fix_exact, "
-            "C14_dyn_install_exact from the install REQUEST on); the folder-scan, folder-restore and node-scan timing theorems are still "
-            "stated for base-operation sequences. Game layer: "
+            "C14_dyn_install_exact from the install REQUEST on); round 7c: the folder-scan, folder-restore and node-scan timing theorems "
+            "are lifted over every List DOp as well (C14_dyn_node_scan_exact; C14_dyn_folder_scan_exact / C14_dyn_folder_restore_exact "
+            "BY POSITION - dynamic operations only append folders, C14_dyn_struct_pos; when the completing timestep is a tickDb only "
+            "the countdown reaching 0 is stated, the full conclusion for a plain timestep). The SCAN PATH is TRANSLATED statement "
+            "by statement from the source (extract/health_scan_tr.py -> Gen/HealthScan.lean: Software.scan, File.scan, Folder.scan, "
+            "Folder._scan_timestep, FileSystem.scan, Node.scan, the node-scan block of Node.apply_timestep) and proved EQUAL to the "
+            "model functions for every state (Props/C14GenScan.lean: C14_gen_sw_scan, C14_gen_file_scan, C14_gen_folder_scan, "
+            "C14_gen_folder_scan_timestep, C14_gen_fs_scan, C14_gen_node_scan_request, C14_gen_node_scan_block; C14g_refuted keeps the "
+            "counter-model of the blind change C14-g - a folder with its own timed scan pending when a whole-node scan completes); the "
+            "inventory no longer compares the guard TEXT of those methods (tied semantically by the translation). Game layer: "
+            "family game-step drives the REAL PrimaiteGame.step() (PrimaiteGame.from_config, two real ProxyAgents with and without "
+            "file_system_requires_scan, actions stored with store_action, folder delete / restore through two rig-registered actions) "
+            "and diffs every step against the model driver (whole dump, flag, reported / cached folder value, file values in the "
+            "observations): every 2-step game over 13 action pairs x node scan {1,2} x folder scan {1,2} (676), thorough + 1 500 sampled "
+            "3-step games; while the host is not ON HostObservation shows its default observation - that gate is applied by the rig, "
+            "not modelled. "
             "PrimaiteGymEnv episodes on shipped and generated scenarios are checked by the identity-based oracle, not by the model. "
             "The node's reveal-to-red countdown (top-level `scan` request) is modelled because it shares a block of the timestep with "
             "the whole-node scan: C14_red_scan_independent - whatever stands on it, every operation leaves all health state as it "
@@ -79,7 +95,7 @@ MANIFEST = {
 }
 MODULES = ["PrimaiteModel.Lemmas.HealthEff", "PrimaiteModel.Props.C14", "PrimaiteModel.Props.C14Gen", "PrimaiteModel.Props.C14Dyn",
            "PrimaiteModel.Props.C14Inv", "PrimaiteModel.Props.C14Life", "PrimaiteModel.Props.C14Obs",
-           "PrimaiteModel.Props.C14DynTime"]
+           "PrimaiteModel.Props.C14DynTime", "PrimaiteModel.Props.C14GenScan"]
 EXE = "drv_c14"
 
 
@@ -232,6 +248,8 @@ def replay(rec: dict) -> bool:
         return not rig.timing_oracle(durs=(r["d"],))
     if r.get("oracle") == "db-restore":
         return not rig.db_restore_oracle()
+    if r.get("oracle") == "game-step":
+        return not gsrig.run_case(r["gcase"])
     if r.get("oracle") == "game":
         return False  # episodes are regenerated from the seed; re-run the check with the same VERIF_SEED
     return False
@@ -240,6 +258,7 @@ def replay(rec: dict) -> bool:
 def run(ctx: Ctx):
     with lean_lock():
         ctx.extract("Health", x_health.emit)
+        ctx.extract("HealthScan", x_scan.emit)   # the scan path, translated statement by statement (Props/C14GenScan.lean)
         ctx.prove(MODULES, exes=[EXE], clean=False, leanchecker=ctx.thorough)
     ctx.cov["rule"] = ("case = (node durations, installed software with durations/start health, folders/files, operation sequence over "
                        "requests, ticks, power events and the Python-API stand-ins for external writers); the implementation's response "
@@ -416,3 +435,18 @@ def run(ctx: Ctx):
     for bq in bad_db[:3]:
         ctx.violation({"kind": "oracle", "clause": "db-restore"}, bq["what"], {"oracle": "db-restore", **bq})
     ctx.oblige("oracle:database restore keeps the file's visible health", "oracle", not bad_db, json.dumps(bad_db[:3], default=str))
+    # the order of a game step through the REAL PrimaiteGame.step(): two real ProxyAgents, real observations, vs the model driver
+    # (ENUMERATED: every 2-step game over 13 action pairs x node scan {1,2} x folder scan {1,2}; thorough adds a strided sample of depth 3)
+    gs_n, gs_bad = gsrig.run_family(depth=2)
+    if ctx.thorough:
+        n3, bad3 = gsrig.run_family(depth=3, limit=1500)
+        gs_n, gs_bad = gs_n + n3, gs_bad + bad3
+    ctx.count("family:game-step", gs_n)
+    ctx.cov["traces_validated_against_impl"] += gs_n
+    for c0 in gs_bad[:4]:
+        ctx.violation({"kind": "model-vs-impl", "layer": "game-step", "field": c0["field"].split(":")[0]},
+                      f"real PrimaiteGame.step() differs from the proved model at game step {c0['step']} of {c0['case']['actions']} "
+                      f"(node scan {c0['case']['dn']}, folder scan {c0['case']['df']}), field {c0['field']}: impl={c0['impl']!r} model={c0['model']!r}",
+                      {"oracle": "game-step", "gcase": c0["case"], "step": c0["step"], "field": c0["field"], "impl": c0["impl"], "model": c0["model"]})
+    ctx.oblige("rig:R-health game-step family (real PrimaiteGame.step) agrees with the model", "correspondence", not gs_bad,
+               f"{len(gs_bad)} complaints in {gs_n} traces: " + json.dumps([{k: v for k, v in c.items() if k != 'case'} for c in gs_bad[:3]], default=str))
